@@ -120,6 +120,14 @@ Theorem C20_tc_upgrade_effect : forall a using_tcp, a = PaRetryTcp ->
 Proof. exact tc_upgrade_effect. Qed.
 Print Assumptions C20_tc_upgrade_effect.
 
+(* ... and the switch does not consume a try: the query is requeued with an unchanged try count
+   whatever is left of its budget (model of: the TC branch calls ares_append_requeue(), not
+   ares_requeue_query(inc_try_count)). *)
+Theorem C20_tc_upgrade_keeps_budget : forall try_count max_tries no_retries,
+  after_answer PaRetryTcp try_count max_tries no_retries = FRequeued try_count.
+Proof. exact tc_upgrade_keeps_budget. Qed.
+Print Assumptions C20_tc_upgrade_keeps_budget.
+
 Theorem C20_tc_ignored : forall found same_q on_conn cookie_ok edns_issue rflags conn_tcp chan_flags rcode,
   conn_tcp = true \/ has_flag chan_flags ARES_FLAG_IGNTC = true ->
   process_answer_decide found same_q on_conn cookie_ok edns_issue rflags conn_tcp chan_flags rcode
